@@ -5,7 +5,7 @@ from .. import oracle as o
 ID = 'C12'
 RULE = ('one record per (scalar, u) through curve25519 / curve25519_base / x25519::dh / x25519::base (SecretKey and PublicKey built both by From<[u8; 32]> and by TryFrom<&[u8]>, all four combinations); result must equal the RFC 7748 ladder on Python integers; '
         'scalars: random, 0, all-ones, all 256 single-bit scalars, clamp-edge patterns; u: random, 0, 1, 2, 9, p-1, p, every alias p+1..p+18 with and without bit 255, 2^255-20.., 2^255-1, 2^256-1, small-order '
-        'values and their bit-255 aliases, random with bit 255 set; base(k) == dh(k, 9); both parties of random exchanges; public keys crafted (inverse scalar on the prime-order subgroup of curve or twist) so that the shared secret is a chosen small / limb-boundary / near-p value; RFC 7748 iteration; '
+        'values and their bit-255 aliases, 9 / 1 / 0 with each of the 256 bits flipped, random with bit 255 set; base(k) == dh(k, 9); both parties of random exchanges; public keys crafted (inverse scalar on the prime-order subgroup of curve or twist) so that the shared secret is a chosen small / limb-boundary / near-p value; RFC 7748 iteration; '
         'distinct = (entry point, scalar class, u class)')
 ASSUMPTIONS = ['bulk phase: the force-32bits backend serves as a second implementation for locating rare disagreements; a disagreement is reported only when the Python model shows the default build wrong, and sampled outputs are always checked against the Python model', 'Python-int Montgomery ladder pinned by RFC 7748 5.2 vectors']
 FLOORS = {'evaluations': 1000, 'distinct': 600}
@@ -101,6 +101,15 @@ def gen(tier, seed):
         yield 'x25519_base %s #%s|base' % (k, sc.split('/')[0])
         yield 'x_base %s #%s|base' % (k, sc.split('/')[0])
         yield 'x25519 %s %s #%s|nine' % (k, le(9), sc.split('/')[0])
+    # the special u values with every single bit flipped in turn (a shortcut that recognises "the base point" / "zero" / "one" must
+    # look at all 32 bytes): 9 ^ 2^i, 1 ^ 2^i, 0 ^ 2^i, and (thorough) 2, p-1, p
+    kr = rng.bytes(32).hex()
+    for name, v in ([('nine', 9), ('one', 1), ('zero', 0)] + ([('two', 2), ('p-1', P - 1), ('p', P)] if thorough else [])):
+        for bit in range(256):
+            u = le(v ^ (1 << bit))
+            yield 'x25519 %s %s #rnd|%s^bit/%d' % (kr, u, name, bit)
+            if name == 'nine' and bit % 4 == seed % 4:
+                yield 'x_dhc %s %s %s #rnd|%s^bit/%d|module' % (kr, u, ['aa', 'as', 'sa', 'ss'][bit % 4], name, bit)
     # every single-bit scalar
     usub = [u for u in us if u[0].split('/')[0] in ('rnd', 'rnd-bit255', 'nine', '2^255-1')]
     for bit in range(256):
